@@ -5,6 +5,7 @@
 #include "vh.h"
 #include "vtime.h"
 #include "loopdrv.h"
+#include <unistd.h>
 #include <algorithm>
 #include <map>
 #include <memory>
@@ -41,14 +42,8 @@ static std::unique_ptr<WorkdayCalendar> cal;
 static event::Loop *loop = nullptr;
 static std::vector<std::string> fired;
 
-static std::string show(const Slot &s) {
-    Alarm *a = s.a();
-    if (!a) return "-";
-    if (a->isEnabled()) return "R" + std::to_string(a->remainSeconds());
-    // kNone and kInited are told apart by enable(): not usable without side effects; the harness tracks it
-    return "?";
-}
-// state tracking for N / I (API offers only isEnabled()): follows the calls the harness itself made
+// kNone and kInited cannot be told apart through the API (only isEnabled()): the harness tracks N / I
+// from the results of the calls it made itself
 static char st[kSlots];   // 'N' or 'I' while not enabled
 static std::string showAt(size_t i) {
     Alarm *a = slots[i].a();
@@ -60,6 +55,17 @@ static std::string state_line(int ret) {
     std::string s = "P ret=" + std::to_string(ret ? 1 : 0);
     for (size_t i = 0; i < kSlots; ++i) s += " " + showAt(i);
     return s;
+}
+
+// callback body: record; a callback storm inside one pass (a re-arm with zero delay served again and
+// again by handleExpiredTimers) would never return to the driver: report and stop the process
+static void on_alarm(size_t i) {
+    fired.push_back("F " + std::to_string(i) + " " + showAt(i));
+    if (fired.size() > 64) {
+        for (auto &l : fired) std::cout << l << "\n";
+        std::cout << "F-STORM more than 64 callbacks in one pass" << std::endl;
+        _exit(3);
+    }
 }
 
 static void reset_all() {
@@ -148,7 +154,7 @@ int main(int argc, char **argv) {
             else if (w[2] == "os") { s.kind = 'o'; s.os = new OneshotProbe(loop); }
             else { s.kind = 'd'; s.wd = new WorkdayProbe(loop); }
             st[i] = 'N';
-            s.a()->setCallback([i] { fired.push_back("F " + std::to_string(i) + " " + showAt(i)); });
+            s.a()->setCallback([i] { on_alarm(i); });
             std::cout << state_line(1) << "\n";
         } else if (op == "init" && w.size() == 5 && slot_of(w[1], i) && vh::to_i64(w[2], iv) && w[2].size() <= 10 && iv >= -200000 && iv <= 200000 &&
                    mask_of(w[3], m) && bool_of(w[4], b) && slots[i].a()) {
@@ -173,7 +179,7 @@ int main(int argc, char **argv) {
             st[i] = 'N';
             std::cout << state_line(1) << "\n";
         } else if (op == "cb" && w.size() == 2 && slot_of(w[1], i) && slots[i].a()) {
-            slots[i].a()->setCallback([i] { fired.push_back("F " + std::to_string(i) + " " + showAt(i)); });
+            slots[i].a()->setCallback([i] { on_alarm(i); });
             std::cout << state_line(1) << "\n";
         } else if (op == "calmask" && w.size() == 2 && bounded(w[1], 255, n)) {
             cal->updateWeekMask((uint8_t)n);
